@@ -46,7 +46,8 @@ From RU Require Import Base.Prelude Base.Utf8 Model.AsciiSet Gen.Tables Model.Pe
   Proofs.C01_EqRun Proofs.C07_SpecRun Proofs.C07_SpecProto Proofs.C07_EqProto Proofs.C07_EqSix
   Proofs.C02_Enc Proofs.C01_EqPath Proofs.C01_EqClasses Proofs.C01_EqAuth Proofs.C07_EqPathClass Proofs.C07_EqAuthClass
   Model.Host Spec.WhatwgHost Spec.WhatwgHostParse Proofs.C01_EqAuthSpec Proofs.C01_EqAuthModel Proofs.C01_EqClasses2 Proofs.C01_EqAuthHost
-  Proofs.C07_EqAuthParse Proofs.C07_EqAuthHost.
+  Proofs.C07_EqAuthParse Proofs.C07_EqAuthHost
+  Proofs.C07_SpecHost Proofs.C07_EqHostname Proofs.C07_EqSeven.
 
 (* ---------- the statement ---------- *)
 
@@ -633,6 +634,128 @@ Proof.
   exists u, su. split; [exact A|]. split; [exact B|]. split; [exact C|].
   split; [cbn [six_ops six]; repeat split; repeat constructor; vm_compute; auto|].
   revert A. vm_compute. intros A. injection A as <-. vm_compute. repeat split.
+Qed.
+
+(* ---------- hostname; seven setters ---------- *)
+
+(* the Standard's hostname setter in closed form, for a URL whose scheme is not "file": opaque path =>
+   unchanged; otherwise the host state scans the value (tab / newline removed) up to the first of / ? #
+   (and \ for a special URL) or a ':' outside brackets (hscan); ':' => unchanged; empty text on a special
+   URL, or with credentials or a port => unchanged; host parser failure => unchanged; else the host is set *)
+Theorem C07_hostname_standard_closed : forall shp su v, list_eqb (su_scheme su) str_file = false ->
+  spec_set shp SetHostname su v
+  = SetTo (if has_opaque_path su then su
+           else hostname_decide shp su (hscan (is_special su) false [] (notnl v))).
+Proof. exact spec_hostname_closed. Qed.
+Print Assumptions C07_hostname_standard_closed.
+
+(* hostname: host state with the state override "hostname state" against Parser::parse_host +
+   Url::set_host_internal.  Outside classes 2, 3, 4 of Known_C07 (':' outside brackets in the value,
+   F-C07-1; URL without host whose path starts with "//", F-C07-2 / F-C03-5; file URLs, F-C07-10).  The
+   host parsers are arbitrary functions that agree (host_fns_ok): both fail or both succeed with the same
+   text; the text is empty for the empty host and otherwise starts with neither ':' nor '@'; the empty
+   host is the result exactly for the empty string. *)
+Theorem C07_hostname_equiv : forall dbg hp ho hd shp shs, host_fns_ok hp ho hd shp shs ->
+  forall u su v, corrS dbg shs u su -> usv_list v -> known_c07 u QHostname v = 0 ->
+  exists u' su', model_set dbg hp ho hd QHostname u v = Some u' /\ spec_step shp QHostname su v = Some su'
+    /\ corrS dbg shs u' su' /\ model_api dbg u' = Some (spec_api_list shs su').
+Proof. exact hostname_equiv. Qed.
+Check C07_hostname_equiv : forall dbg hp ho hd shp shs, host_fns_ok hp ho hd shp shs ->
+  forall u su v, corrS dbg shs u su -> usv_list v -> known_c07 u QHostname v = 0 ->
+  exists u' su', model_set dbg hp ho hd QHostname u v = Some u' /\ spec_step shp QHostname su v = Some su'
+    /\ corrS dbg shs u' su' /\ model_api dbg u' = Some (spec_api_list shs su').
+Print Assumptions C07_hostname_equiv.
+
+(* PARTIAL C07_statement: its one-step clause (`one_step`) with R := corrS, restricted to seven of the ten
+   setters and to values that are strings of scalar values.  Missing: host, pathname, href; hostname on
+   file URLs (class 4 excludes them all); parse => corrS for special schemes. *)
+Theorem C07_seven_setters_partial : forall dbg hp ho hd shp shs, host_fns_ok hp ho hd shp shs ->
+  forall u su s v, corrS dbg shs u su -> seven s = true -> usv_list v -> known_c07 u s v = 0 ->
+  exists u' su', model_set dbg hp ho hd s u v = Some u' /\ spec_step shp s su v = Some su'
+    /\ corrS dbg shs u' su' /\ model_api dbg u' = Some (spec_api_list shs su').
+Proof. exact seven_step_api. Qed.
+Check C07_seven_setters_partial : forall dbg hp ho hd shp shs, host_fns_ok hp ho hd shp shs ->
+  forall u su s v, corrS dbg shs u su -> seven s = true -> usv_list v -> known_c07 u s v = 0 ->
+  exists u' su', model_set dbg hp ho hd s u v = Some u' /\ spec_step shp s su v = Some su'
+    /\ corrS dbg shs u' su' /\ model_api dbg u' = Some (spec_api_list shs su').
+Print Assumptions C07_seven_setters_partial.
+
+(* ... along every history of assignments through the seven setters *)
+Theorem C07_seven_histories : forall dbg hp ho hd shp shs, host_fns_ok hp ho hd shp shs ->
+  forall ops u su, corrS dbg shs u su -> seven_ops ops -> outside_known dbg hp ho hd u ops ->
+  forall n, exists u' su',
+    model_run dbg hp ho hd u (firstn n ops) = Some u'
+    /\ spec_run shp su (firstn n ops) = Some su'
+    /\ corrS dbg shs u' su'
+    /\ model_api dbg u' = Some (spec_api_list shs su').
+Proof. exact seven_histories. Qed.
+Check C07_seven_histories : forall dbg hp ho hd shp shs, host_fns_ok hp ho hd shp shs ->
+  forall ops u su, corrS dbg shs u su -> seven_ops ops -> outside_known dbg hp ho hd u ops ->
+  forall n, exists u' su',
+    model_run dbg hp ho hd u (firstn n ops) = Some u'
+    /\ spec_run shp su (firstn n ops) = Some su'
+    /\ corrS dbg shs u' su'
+    /\ model_api dbg u' = Some (spec_api_list shs su').
+Print Assumptions C07_seven_histories.
+
+(* C07_statement restricted to the seven setters and to start URLs of the three proved no-base classes of
+   non-special schemes (opaque path; "scheme:/path"; "scheme://authority" with the two host hypotheses of
+   C07_authority_class_corrS): parse, then any sequence of assignments with any values - the ten API strings
+   agree at the start and after every prefix *)
+Theorem C07_seven_classes : forall dbg hp ho hd shp shs, host_fns_ok hp ho hd shp shs ->
+  forall input u ops, usv_list input ->
+  in_class_opaque input = true \/ in_class_pathonly input = true
+  \/ (in_class_authority input = true /\ host_agree ho hd shp shs (class_host_text input)
+      /\ host_extra ho hd shp (class_host_text input)) ->
+  parse_url dbg hp ho hd None None input = POk u ->
+  seven_ops ops -> outside_known dbg hp ho hd u ops ->
+  exists su, spec_basic_url_parse shp input None = BDone su
+    /\ model_api dbg u = Some (spec_api_list shs su)
+    /\ forall n, exists u' su',
+         model_run dbg hp ho hd u (firstn n ops) = Some u'
+         /\ spec_run shp su (firstn n ops) = Some su'
+         /\ model_api dbg u' = Some (spec_api_list shs su').
+Proof. exact seven_from_classes. Qed.
+Check C07_seven_classes : forall dbg hp ho hd shp shs, host_fns_ok hp ho hd shp shs ->
+  forall input u ops, usv_list input ->
+  in_class_opaque input = true \/ in_class_pathonly input = true
+  \/ (in_class_authority input = true /\ host_agree ho hd shp shs (class_host_text input)
+      /\ host_extra ho hd shp (class_host_text input)) ->
+  parse_url dbg hp ho hd None None input = POk u ->
+  seven_ops ops -> outside_known dbg hp ho hd u ops ->
+  exists su, spec_basic_url_parse shp input None = BDone su
+    /\ model_api dbg u = Some (spec_api_list shs su)
+    /\ forall n, exists u' su',
+         model_run dbg hp ho hd u (firstn n ops) = Some u'
+         /\ spec_run shp su (firstn n ops) = Some su'
+         /\ model_api dbg u' = Some (spec_api_list shs su').
+Print Assumptions C07_seven_classes.
+
+(* the hypothesis on the host functions can be met: every non-empty text that starts with neither ':' nor
+   '@' is a domain / an opaque host that serialises as itself *)
+Theorem C07_host_fns_ok_inhabited : host_fns_ok safe_hp safe_ho toy_hd safe_shp toy_shs.
+Proof. exact safe_host_fns_ok. Qed.
+Print Assumptions C07_host_fns_ok_inhabited.
+
+(* ... and a seven-setter history on a start URL of the authority class, with these functions: "n://u@h:8/p",
+   hostname := "x.y/z", protocol := "m", hostname := "" (refused: credentials), port := "", username := "",
+   hostname := "" *)
+Example C07_seven_inhabited :
+  let input := str "n://u@h:8/p" in
+  let ops := [(QHostname, str "x.y/z"); (QProtocol, str "m"); (QHostname, []); (QPort, []); (QUsername, []); (QHostname, [])] in
+  usv_list input /\ in_class_authority input = true
+  /\ host_agree safe_ho toy_hd safe_shp toy_shs (class_host_text input)
+  /\ host_extra safe_ho toy_hd safe_shp (class_host_text input)
+  /\ seven_ops ops
+  /\ exists u, parse_url true safe_hp safe_ho toy_hd None None input = POk u
+       /\ outside_known true safe_hp safe_ho toy_hd u ops
+       /\ option_map q_href (model_run true safe_hp safe_ho toy_hd u ops) = Some (str "m:///p").
+Proof.
+  cbv zeta. split; [repeat constructor; vm_compute; auto|]. split; [vm_compute; reflexivity|].
+  split; [unfold host_agree; vm_compute; repeat split; try reflexivity; intros H; discriminate H|].
+  split; [unfold host_extra; vm_compute; repeat split; try reflexivity; intros H; discriminate H|].
+  split; [cbn [seven_ops seven]; repeat split; repeat constructor; vm_compute; auto|].
+  eexists. split; [vm_compute; reflexivity|]. split; vm_compute; repeat split.
 Qed.
 
 (* ---------- clauses of the Standard's setters, for all records and values ---------- *)
